@@ -1,6 +1,8 @@
 package limiter
 
 import (
+	"errors"
+
 	"github.com/gofiber/fiber/v3"
 )
 
@@ -22,4 +24,18 @@ func New(config ...Config) fiber.Handler {
 
 	// Return the specified middleware handler.
 	return cfg.LimiterMiddleware.New(cfg)
+}
+
+// getEffectiveStatusCode returns the status the client is going to get for this request: a handler that
+// failed by returning an error has not had its status set yet (the error handler runs after the middleware),
+// so the code the error stands for is used in that case.
+func getEffectiveStatusCode(c fiber.Ctx, err error) int {
+	if err != nil {
+		var fiberErr *fiber.Error
+		if errors.As(err, &fiberErr) {
+			return fiberErr.Code
+		}
+		return fiber.StatusInternalServerError
+	}
+	return c.Response().StatusCode()
 }
